@@ -3,9 +3,18 @@ C18 — every storage back-end behaves as one sorted round-to-beacon map.
 Property theorems (names listed in vlib/props/C18.py). Models: Drand/Store/{Assoc,Bolt,Mem}.lean.
 -/
 import Drand.Store.Mem
+import Gen.Locks
 
 namespace Drand.Store
 open Drand
+
+/-- every operation of the in-memory back-end is one step of the model: in the code each of `Put`, `Del` (write lock)
+and `Get`, `Last`, `Len`, the four cursor moves (read lock) is, for its whole body, a critical section of the store's
+mutex; `Cursor` itself takes nothing (the cursor is a position into the live slice, each move locks for itself). -/
+theorem tie_memdb_ops_atomic :
+    Gen.memdbLockTable = [("Store.Close", "-"), ("Store.Cursor", "-"), ("Store.Del", "W"), ("Store.Get", "R"), ("Store.Last", "R"),
+      ("Store.Len", "R"), ("Store.Put", "W"), ("Store.SaveTo", "-"), ("memDBCursor.First", "R"), ("memDBCursor.Last", "R"),
+      ("memDBCursor.Next", "R"), ("memDBCursor.Seek", "R")] := by decide
 
 variable {α : Type}
 
